@@ -209,7 +209,7 @@ def _exec_tables(case):
             ok, val = _call(fn, key)
             d = _num(val) if ok else None
             e = {'ev': ev, 'key': key, 'codes': core.text_codes(key), 'raised': d is None,
-                 'val': d or [0, 0], 'lits': _lits(tab.get(key, []))}
+                 'val': d or [0, 0], 'lits': _lits(tab.get(key, [])), 'tab': key in tab}
             e.update(_doc_fields(docmap, key))
             if extra:
                 e.update(extra(key))
@@ -460,7 +460,8 @@ def run(ctx):
     results = core.pmap(execute, cases)
     traces = []
     for tid, (case, (events, mism)) in enumerate(zip(cases, results)):
-        ctx.evaluated()
+        ctx.evaluated(len(case['row']) if case['kind'] == 'row' else
+                      len(case['cases']) if case['kind'] == 'temps' else max(1, len(events)))
         if events or case['kind'] == 'temps':
             ctx.nontrivial(_signature(case))
         for m in mism:
@@ -480,6 +481,16 @@ def run(ctx):
         ev = traces[tid][1][idx]
         if clause in MACHINERY_CLAUSES:
             raise core.MachineryError('trace spec reported %s on %s' % (clause, json.dumps(ev)[:600]))
+        if clause.startswith('Note'):
+            # docstring text disagreeing with the function: documentation, not behaviour
+            note = 'docstring: %s %s %s' % (clause[4:], ev.get('fn', ev.get('ev', '')),
+                                            ev.get('key', ev.get('name', '')))
+            if ev.get('doctext'):
+                note += ' (documented %s, function %s)' % (
+                    ev['doctext'], 'raises' if ev.get('raised') else 'returns %se%d' % tuple(ev['val']))
+            if note not in ctx.notes:
+                ctx.notes.append(note)
+            continue
         detail = {'event_index': idx,
                   'event': {k: v for k, v in ev.items() if k not in ('codes', 'lits', 'doclit')}
                   if case_small(ev) else {'ev': ev.get('ev'), 'type': ev.get('type')}}
